@@ -355,12 +355,23 @@ class _LocalDatePatternParser(_IPatternParser[LocalDate]):
             # Use the year from the template value, possibly checking the era.
             if not used_fields.has_any(_PatternFields.YEAR_OF_ERA):
                 self._year = self._template_value.year
+                # The calendar may have been parsed from the text (the 'c' specifier), in which case the
+                # template value's year need not exist in it.
+                if self._year > self._calendar.max_year or self._year < self._calendar.min_year:
+                    return ParseResult._field_value_out_of_range_post_parse(
+                        text, self._year, "u", eventual_result_type
+                    )
                 if used_fields.has_any(_PatternFields.ERA) and self.__era != self._calendar._get_era(self._year):
                     return ParseResult._inconsistent_values(text, "g", "u", eventual_result_type)
                 return None
 
             if not used_fields.has_any(_PatternFields.ERA):
                 self.__era = self._template_value.era
+                # The calendar may have been parsed from the text (the 'c' specifier), in which case the
+                # template value's era need not be one of its eras: use the calendar's latest (usually only) era.
+                calendar_eras = list(self._calendar.eras())
+                if self.__era not in calendar_eras:
+                    self.__era = calendar_eras[-1]
 
             assert self.__era is not None
 
